@@ -41,6 +41,8 @@ func TestMain(m *testing.M) {
 	// a format composed by a user from the library's own validators, which hands their schema errors on
 	// wrapped (the usual fmt.Errorf("...: %w", err))
 	v4, v6 := openapi3.NewIPValidator(true), openapi3.NewIPValidator(false)
+	openapi3.DefineIPv4Format()
+	openapi3.DefineIPv6Format()
 	openapi3.DefineStringFormatValidator("x-wrapped-ip", openapi3.NewCallbackValidator(func(s string) error {
 		err4 := v4.Validate(s)
 		if err4 == nil {
@@ -421,6 +423,15 @@ func tweak(t *rapid.T, s map[string]any) {
 }
 
 func gen(t *rapid.T) Case {
+	if rapid.IntRange(0, 15).Draw(t, "ipfamily") == 0 {
+		// the opt-in address formats, given a well-formed address of the other family (or of none): the text
+		// sent is the client's data like any other string
+		f := rapid.SampledFrom([]string{"ipv4", "ipv6"}).Draw(t, "ipformat")
+		val := rapid.SampledFrom([]string{"2001:db8::4111:7319", "::ffff:198.51.100.77", "198.51.100.77", "10.20.30.40", "fe80::1ff:fe23:4567:890a", "300.300.300.300", "not-an-address-7319"}).Draw(t, "ipvalue")
+		root := `{"type":"object","properties":{"peer":{"type":"string","format":"` + f + `"}}}`
+		entry := rapid.SampledFrom([]string{"visit", "visit-multi", "request", "request-multi", "response"}).Draw(t, "entry")
+		return Case{Schemas: map[string]string{"Root": root}, Value: jv.Canon(map[string]any{"peer": val}), Entry: entry}
+	}
 	if rapid.IntRange(0, 11).Draw(t, "defaultsfamily") == 0 {
 		// bodies that satisfy every member of a composition as sent, where one member writes a default the
 		// other has a bound for: whatever is said about such a body, it is said without the body's strings
